@@ -328,6 +328,9 @@ func (r *R) RunScenarios(t *testing.T, scs []Scenario) {
 			}
 			e := &explore.Explorer{Scenario: sc.Name, Bound: 1 << 30, Body: sc.Body, Wrap: sc.Wrap}
 			run, fail := e.Replay(a.Violation.Choices)
+			if st := e.LastStack(); st != "" {
+				fmt.Println(st)
+			}
 			for _, l := range run.Trace {
 				fmt.Println("  ", l)
 			}
